@@ -249,8 +249,16 @@ def handlePowEnv : List String → Option String
       some (if Sif.Spec.C10.PowAccurate pm (← parseDec b) then "holds" else "violated")
   | _ => none
 
+/-- `lpu <lp 4> <sellNative> <value>`: MustUpdateLiquidityProtectionThreshold → ok <cur'> | panic -/
+def handleLpu : List String → Option String
+  | [a, mx, cur, el, sell, v] => do
+      let lp ← parseLp [a, mx, cur, el]
+      some (showM (fun (l : LiqProt) => s!"{l.cur}") (lpUserUpdate lp (← parseBool sell) (← parseNat v)))
+  | _ => none
+
 def handlePolicy : List String → Option String
   | ["reset"] => some "ok"
+  | "lpu" :: rest => handleLpu rest
   | "inv" :: rest => handleInv rest
   | "powenv" :: rest => handlePowEnv rest
   | "bb" :: rest => handleBB rest
